@@ -52,20 +52,20 @@ type Plan struct {
 
 	BackendKeepAlive   bool
 	ExtraInjectors     []ExtraInjector
-	ExtraInjectorsLate bool   // append them to HTTPHandler.HeaderInjectors after construction instead of passing them to the constructor
-	Burst              bool   // offer "burst": every pending delivery and client step in ONE controller step (race workers: goroutines of different connections then run unordered by the controller)
-	YieldInjector      bool   // park every handler at an injector placed first
-	ParkInjector       bool   // park every handler at an injector placed first until the drain phase
-	CancelAtStep       int    // >0: cancel the server context at that decision
-	Fences             bool   // yield fences in readFrames / sendServeMsg are active
-	CaptureFences      bool   // yield before every lock around the captured fingerprint data (serve loop)
-	BodyReadFences     bool   // yield in noteBodyReadFromHandler (request body credit message)
+	ExtraInjectorsLate bool // append them to HTTPHandler.HeaderInjectors after construction instead of passing them to the constructor
+	Burst              bool // offer "burst": every pending delivery and client step in ONE controller step (race workers: goroutines of different connections then run unordered by the controller)
+	YieldInjector      bool // park every handler at an injector placed first
+	ParkInjector       bool // park every handler at an injector placed first until the drain phase
+	CancelAtStep       int  // >0: cancel the server context at that decision
+	Fences             bool // yield fences in readFrames / sendServeMsg are active
+	CaptureFences      bool // yield before every lock around the captured fingerprint data (serve loop)
+	BodyReadFences     bool // yield in noteBodyReadFromHandler (request body credit message)
 	// LocalAbandon: requests (by tag) that are not handed to the reverse proxy but to a stub of a
 	// library user's handler that reads ReadBytes of the request body, closes it, sends its
 	// response header, stays busy for HoldMS of simulated time and then answers "abandoned:<tag>"
 	// - the "handler abandons the body while the stream stays open" case of C12's quantifier (with
 	// go1.26's httputil.ReverseProxy the inbound body is never closed before the handler returns)
-	LocalAbandon map[string]AbandonPlan
+	LocalAbandon       map[string]AbandonPlan
 	WriteFences        bool   // yield at the start of writeFrameAsync: a frame write stays in flight as long as the controller likes (stand-in for TCP back-pressure)
 	H2DecoderTableSize uint32 // > 0: proxyserver.Server.HTTP2Server.MaxDecoderHeaderTableSize
 	CancelBeforeServe  bool
